@@ -11,12 +11,13 @@ import (
 	"io"
 	"os"
 	"sort"
+	"strings"
 )
 
 func init() {
 	vfRegister(&vfProp{
 		id:        "C13",
-		classes:   []string{"readat", "read", "writeto", "writeat", "write", "readfrom", "readfromc", "srcsink", "wrerr"},
+		classes:   []string{"readat", "read", "writeto", "writeat", "write", "readfrom", "readfromc", "srcsink", "wrerr", "cut"},
 		gen:       c13Gen,
 		exec:      c13Exec,
 		enumerate: c13Enumerate,
@@ -59,6 +60,9 @@ func c13Gen(class string, seed uint64, tier string) *vfScenario {
 	sc.Cfg["size"] = int64(size)
 	sc.Cfg["start"] = int64(start)
 	kind := class
+	if class == "cut" {
+		kind = []string{"readat", "writeto", "writeat", "write", "readfrom", "readfromc"}[rng.IntN(6)]
+	}
 	if class == "wrerr" {
 		kind = []string{"readat", "read", "writeto", "writeat", "write", "readfrom", "readfromc"}[rng.IntN(7)]
 	}
@@ -70,10 +74,10 @@ func c13Gen(class string, seed uint64, tier string) *vfScenario {
 	case "readat", "writeat":
 		op.Off = int64(start)
 	case "readfrom":
-		op.S = fmt.Sprintf("%d,%d,-1,%d", rng.IntN(7), []int{0, 0, -1, 1, -L, P, 3 * P * M}[rng.IntN(7)], []int{0, 0, 1, P, P + 1}[rng.IntN(5)])
+		op.S = fmt.Sprintf("%d,%d,-1,%d,%d", rng.IntN(7), []int{0, 0, -1, 1, -L, P, 3 * P * M}[rng.IntN(7)], []int{0, 0, 1, P, P + 1}[rng.IntN(5)], []int{0, 0, 1}[rng.IntN(3)])
 	case "readfromc":
 		op.A = int64([]int{-1, 0, 1, 2, M, M + 1}[rng.IntN(6)])
-		op.S = fmt.Sprintf("4,0,-1,%d", []int{0, 1, P + 1}[rng.IntN(3)])
+		op.S = fmt.Sprintf("4,0,-1,%d,%d", []int{0, 1, P + 1}[rng.IntN(3)], []int{0, 0, 1}[rng.IntN(3)]) // last: a source that is slow (scheduler-paced)
 	}
 	if class == "srcsink" {
 		switch kind {
@@ -93,7 +97,7 @@ func c13Gen(class string, seed uint64, tier string) *vfScenario {
 	if class == "srcsink" && rng.IntN(2) == 0 {
 		nf = 0
 	}
-	if class == "wrerr" && (size-start)%P != 0 && size < start+L {
+	if (class == "wrerr" || class == "cut") && (size-start)%P != 0 && size < start+L {
 		size = start + (size-start)/P*P // keep the end of the file on a chunk boundary (see c13Exec)
 		sc.Cfg["size"] = int64(size)
 	}
@@ -103,10 +107,23 @@ func c13Gen(class string, seed uint64, tier string) *vfScenario {
 		nf = 0
 		sc.Faults = append(sc.Faults, vfFault{K: "wrerr", At: int64(rng.IntN(2*nch + 3)), A: int64(rng.IntN(3)), B: int64(rng.IntN(3))})
 	}
+	if class == "cut" {
+		// some chunk is refused by the peer AND the connection is lost after a number of chunk replies:
+		// the lowest failing offset decides, whichever kind of failure sits there
+		nf = rng.IntN(2) + rng.IntN(2)
+		sc.Faults = append(sc.Faults, vfFault{K: "cut", At: int64(1 + rng.IntN(nch+1))})
+	}
 	perm := rng.Perm(nch + 1)
 	codes := rng.Perm(len(c13Codes))
 	for i := 0; i < nf && i < len(perm); i++ {
 		sc.Faults = append(sc.Faults, vfFault{K: "chunk", At: int64(perm[i]), A: c13Codes[codes[i]]})
+	}
+	if strings.HasSuffix(op.S, ",1") && strings.Count(op.S, ",") == 4 && len(sc.Faults) > 0 {
+		// A scheduler-paced source together with a refused chunk: when the slicer comes back from the source, "a worker
+		// is free" and "cancelled" can both be true, and Go's select picks. Both continuations are legal and the oracle
+		// accepts both, but the event log of such a run is not a function of the seed alone: it is marked, left out of
+		// the determinism self-test's comparison, and a failure found in it may not replay every time (the check says so).
+		sc.Cfg["coin"] = 1
 	}
 	sites := int64(1 | 2 | 4)
 	if rng.IntN(4) == 0 {
@@ -217,7 +234,7 @@ func c13Exec(r *vfRun) {
 	}
 	isRead := op.K == "readat" || op.K == "read" || op.K == "writeto"
 	for _, f := range sc.Faults {
-		if f.K == "wrerr" && isRead && (int64(size)-start)%int64(P) != 0 && int64(size) < start+int64(op.N) {
+		if (f.K == "wrerr" || f.K == "cut") && isRead && (int64(size)-start)%int64(P) != 0 && int64(size) < start+int64(op.N) {
 			// A chunk that comes back short is completed by a second request for its rest: with a transport
 			// fault in play the oracle's one-request-per-chunk bookkeeping would not be exact. The generator
 			// keeps the end of the file on a chunk boundary for this class; shrunk scenarios may not.
@@ -250,9 +267,29 @@ func c13Exec(r *vfRun) {
 	fired := map[int]bool{}
 	arrived := map[int]bool{} // chunk indices whose request reached the peer after arming
 	var wrFault *vfFault
+	cutAfter := 0 // the link dies after this many chunk replies (0: never)
 	for i := range sc.Faults {
 		if sc.Faults[i].K == "wrerr" {
 			wrFault = &sc.Faults[i]
+		}
+		if sc.Faults[i].K == "cut" {
+			cutAfter = int(sc.Faults[i].At)
+		}
+	}
+	answered := map[int]bool{} // chunk indices whose reply was written before the cut
+	nAnswered, cutDone := 0, false
+	srv.onAnswer = func(rq *ssReq, _ *wResp) {
+		q := rq.q
+		if !armed || cutDone || (q.Type != wtRead && q.Type != wtWrite) || int64(q.Offset) < start {
+			return
+		}
+		answered[int((int64(q.Offset)-start)/int64(P))] = true
+		nAnswered++
+		if cutAfter > 0 && nAnswered == cutAfter {
+			cutDone = true
+			sim.mu.Lock()
+			srv.s2c.cutAt, srv.s2c.cutErr = len(srv.s2c.buf), io.ErrUnexpectedEOF
+			sim.mu.Unlock()
 		}
 	}
 	srv.override = func(rq *ssReq) []byte {
@@ -321,6 +358,19 @@ func c13Exec(r *vfRun) {
 			}
 		}
 		sim.count("probe.transfer_hit_by_write_fault")
+	}
+	if cutDone {
+		// every chunk whose reply did not get through is a failing chunk (the call sees "connection lost" for it)
+		span := op.N
+		if op.K == "writeto" && size > span {
+			span = size
+		}
+		for i := 0; i <= (span+P-1)/P+1; i++ {
+			if !answered[i] {
+				fails[i] = c13Fail{idx: i, code: c13Transport, msg: "reply lost with the connection"}
+			}
+		}
+		sim.count("probe.transfer_hit_by_connection_loss")
 	}
 	// lowest failing chunk that the transfer can reach
 	var idxs []int
@@ -503,6 +553,17 @@ func c13Exec(r *vfRun) {
 			}
 		}
 	}
+	if res.Src != nil {
+		// whatever is still running in the background: once the call has returned it must leave the source alone
+		sim.run(nil)
+		if sim.failed() {
+			return
+		}
+		if got := res.Src.handedOut(); got != res.SrcRead {
+			fail("source-read-after-return", "when the call returned it had consumed %d bytes of the source; afterwards the source was read again (%d bytes handed out in all)", res.SrcRead, got)
+			return
+		}
+	}
 	if int64(res.N) < int64(L) && res.Err == nil && op.K != "writeto" {
 		fail("short-count-nil-error", "short count %d of %d with a nil error", res.N, L)
 		return
@@ -517,7 +578,7 @@ func c13Exec(r *vfRun) {
 	if sim.stats["probe.peer.reordered"] > 0 && nfired > 0 {
 		sim.count("probe.failure_with_reordered_replies")
 	}
-	r.res.NonTrivial = nfired > 0 || srcFailAt >= 0 || sinkFailAt >= 0 || wrFired
+	r.res.NonTrivial = nfired > 0 || srcFailAt >= 0 || sinkFailAt >= 0 || wrFired || cutDone
 }
 
 func min64(a, b int64) int64 {
